@@ -22,7 +22,7 @@ if subprocess.run(["git", "-C", "/repo", "worktree", "add", "-q", "--detach", wt
 # every other seed run shares it, so concurrent keep_seed runs never see each other's generated files
 import fcntl
 TRANSLATED = ("intervals/arithmetic.py", "pba/params.py", "pba/pbox_free.py", "calibration/tmcmc.py",
-              "nlp/language_parsing.py", "intervals/methods.py", "pba/pbox_abc.py")
+              "nlp/language_parsing.py", "intervals/methods.py", "pba/pbox_abc.py", "pba/utils.py")
 _lk = open("/tmp/seedrun/.lock", "w")
 fcntl.flock(_lk, fcntl.LOCK_EX if any(t in (d / "patch.diff").read_text() for t in TRANSLATED) else fcntl.LOCK_SH)
 results = []
